@@ -73,4 +73,33 @@ hist = [L(i, "OSError") for i in range(7)]
 assert [x["clause"] for x in O.c12_check("stage0.M", pol, hist)[0]] == ["more-than-5-consecutive-resubmissions"]
 hist = [L(i, "OSError") for i in range(6)]
 assert O.c12_check("stage0.M", pol, hist)[0] == []
+
+# --- exactly one final state (assignment monitor)
+def S(seq, comp, old, new): return {"seq": seq, "kind": "cs.state", "comp": comp, "old": old, "new": new}
+r = {"events": [S(1, "a", None, "checking"), S(2, "a", "checking", "finished"), S(3, "b", None, "component_shutdown")],
+     "final_states": {"a": "finished", "b": "component_shutdown"}}
+assert O.single_final_state(r)[0] == []
+r["events"].append(S(4, "b", "component_shutdown", "failed"))
+assert [x["clause"] for x in O.single_final_state(r)[0]] == ["final-state-reassigned"]
+# a reading taken BEFORE the assignment does not bind it, one taken after does
+r = {"events": [{"seq": 1, "kind": "harness.states", "comp": None, "key": "final_states", "states": {"a": "running"}},
+                S(2, "a", None, "component_shutdown"),
+                {"seq": 3, "kind": "harness.states", "comp": None, "key": "late_states", "states": {"a": "failed"}}],
+     "final_states": {"a": "running"}, "late_states": {"a": "failed"}}
+assert [x["clause"] for x in O.single_final_state(r)[0]] == ["state-read-after-the-run-differs-from-assigned-final-state"]
+
+# --- C13 clause (d): stop before retries are used up needs a successful execution begun after the last output
+from rt import repeating as RP
+def ev(seq, kind, **kw): return dict({"seq": seq, "kind": kind, "comp": "stage0.ObsX"}, **kw)
+base = [ev(1, "kernel.enter", n=1, last=False), ev(2, "launch", exec=0, prod_files=[1], launch_error=None),
+        ev(3, "exit", exec=0, reason="Success"), ev(4, "kernel.exit", n=1, last=False),
+        {"seq": 5, "kind": "output", "comp": "stage0.ProdAX"}, ev(6, "notify_all_producers_finished"),
+        ev(7, "kernel.enter", n=2, last=False), ev(8, "launch", exec=1, prod_files=[1], launch_error="OSError"),
+        ev(9, "kernel.exit", n=2, last=False), ev(10, "kernel.enter", n=3, last=True), ev(11, "kernel.exit", n=3, last=True),
+        ev(12, "observed.end", verdict="dead")]
+res = {"obs": "stage0.ObsX", "events": base, "retries": 1, "consume": True}
+cl = [x["clause"] for x in RP.judge({"kill_delay": None}, res)[0]]
+assert cl == ["d:stopped-before-retries-used-up-without-successful-final-execution"], cl
+res["retries"] = 0            # the single failed attempt used the only try
+assert RP.judge({"kill_delay": None}, res)[0] == []
 print("selftest ok")
